@@ -1,5 +1,6 @@
 import IstioModel.Common.Wire
 import IstioModel.C18.Rotate
+import IstioModel.C18.Model
 
 /-! Line-protocol driver for C18. See harness/c18/main.go for the op formats.
 
@@ -45,14 +46,185 @@ def stepRotate (toks : List String) : String :=
     | _, _, _, _ => "bad-op"
   | _ => "bad-op"
 
+/-! Stream `cache`: sequential op scripts on the state machine (each op = one process run alone).
+
+  `case <n> cache <rNum> <rDen> <JNum> <JDen>`      reset, configured ratio / jitter bound
+  `gen <w|r> ok <ttlSec> <signer> <bundle>`        GenerateSecret(default|ROOTCA); CA behaviour if it is called
+  `gen <w|r> signerr|bundleerr|garbage|emptychain`
+  `bundle <letters|->`                              UpdateConfigTrustBundle
+  `fire <k>`                                        run the rotation callback of the k-th pushed queue entry
+
+Roots are letters `A`.. (id 0..), bundles are strings of letters (`-` = empty).
+
+Stream `conc`: `conc <N> <kErr> <seed> <kinds>`: N concurrent GenerateSecret calls (kinds: one letter
+w/r per call), the first kErr CA calls fail; the model runs one (seed-chosen) interleaving. -/
+
+def rootsTok (l : List Nat) : String :=
+  if l.isEmpty then "-" else String.ofList (l.map fun n => Char.ofNat (65 + n))
+
+def tokRoots (t : String) : List Nat :=
+  if t == "-" then [] else t.toList.map fun c => c.toNat - 65
+
+def optNat : Option Nat → String
+  | none => "-"
+  | some n => toString n
+
+def evTok (l : List Ev) : String :=
+  if l.isEmpty then "-" else String.ofList (l.map fun e => match e with | .rootca => 'R' | .workload => 'W')
+
+/-- Nearest quarter of `delay / lifetime` (0..4); for a non-positive lifetime 0 iff the delay is 0. -/
+def bucket (d L : Int) : Int :=
+  if L ≤ 0 then (if d = 0 then 0 else 9) else (8 * d + L) / (2 * L)
+
+def showState (s : State) : String :=
+  let wl := match s.workload with
+    | none => "-"
+    | some it => toString it.key
+  s!"wl={wl} croot={rootsTok s.certRoot} cfg={rootsTok s.cfg} q={s.queue.length} ca={s.caCalls}"
+
+def showRet (r : Ret) : String :=
+  let root := match r.root with
+    | none => "none"
+    | some l => rootsTok l
+  (if r.ok then "ok" else "err") ++ s!" key={optNat r.key} cert={optNat r.cert} root={root}"
+
 structure DState where
-  dummy : Nat := 0
+  sys  : Sys := {}
+  next : Nat := 0        -- next free process slot
+  tick : Int := 0        -- logical clock: one tick per op
+
+def newBucket (before after : State) : String :=
+  if after.queue.length > before.queue.length then
+    match after.queue.getLast? with
+    | some en => toString (bucket en.delay (en.expire - en.created))
+    | none => "-"
+  else "-"
+
+def caOfToks : List String → Option CAOut
+  | ["ok", ttl, signer, bundle] =>
+    match ttl.toInt? with
+    | some t => some (.ok (t * 1000000000) ((tokRoots signer).headD 0) (tokRoots bundle))
+    | none => none
+  | ["signerr"] => some .err
+  | ["bundleerr"] => some .err
+  | ["garbage"] => some .err
+  | ["emptychain"] => some .err
+  | _ => none
+
+def stepCache (d : DState) (toks : List String) : DState × String :=
+  let now := d.tick * 1000000
+  let d1 := { d with next := d.next + 1, tick := d.tick + 1 }
+  let before := d.sys.st
+  let evs (after : State) := evTok (after.events.drop before.events.length)
+  match toks with
+  | "gen" :: r :: ca =>
+    match (if r == "w" then some Res.workload else if r == "r" then some Res.root else none), caOfToks ca with
+    | some res, some out =>
+      let y := seqOp d.sys d.next (.gen res) { ca := out, now := now }
+      match y.procs d.next with
+      | .gDone ret => ({ d1 with sys := y }, s!"{showRet ret} ev={evs y.st} nb={newBucket before y.st} | {showState y.st}")
+      | _ => (d1, "stuck")
+    | _, _ => (d, "bad-op")
+  | ["bundle", b] =>
+    let y := seqOp d.sys d.next (.update (tokRoots b)) { now := now }
+    match y.procs d.next with
+    | .uDone ch => ({ d1 with sys := y }, s!"changed={boolTok ch} ev={evs y.st} | {showState y.st}")
+    | _ => (d1, "stuck")
+  | ["fire", k] =>
+    match k.toNat? with
+    | none => (d, "bad-op")
+    | some e =>
+      let y := seqOp d.sys d.next (.timer e) { now := now }
+      match y.procs d.next with
+      | .tDone _ cl => ({ d1 with sys := y }, s!"{if cl then "clear" else "noop"} ev={evs y.st} | {showState y.st}")
+      | _ => ({ d1 with sys := y }, s!"none ev={evs y.st} | {showState y.st}")
+  | _ => (d, "bad-op")
+
+/-! ### conc -/
+
+def isDone : Proc → Bool
+  | .gDone _ => true
+  | .idle => true
+  | _ => false
+
+def isBlocked (y : Sys) : Proc → Bool
+  | .gLock _ => y.st.mutex.isSome
+  | _ => false
+
+def lcg (s : Nat) : Nat := (s * 6364136223846793005 + 1442695040888963407) % 18446744073709551616
+
+def concLoop (n kErr : Nat) : Nat → Nat → Sys → Sys
+  | 0, _, y => y
+  | fuel + 1, seed, y =>
+    let live := (List.range n).filter fun p => !isDone (y.procs p) && !isBlocked y (y.procs p)
+    if live.isEmpty then y else
+    let seed' := lcg seed
+    let p := live.getD ((seed' / 65536) % live.length) 0
+    let ca : CAOut := if y.st.caCalls < kErr then .err else .ok 3600000000000 0 []
+    concLoop n kErr fuel seed' (step y p { ca := ca, now := (y.st.caCalls : Int) * 1000 })
+
+def insertNat (x : Nat) : List Nat → List Nat
+  | [] => [x]
+  | y :: ys => if x < y then x :: y :: ys else if x = y then y :: ys else y :: insertNat x ys
+
+def stepConc (toks : List String) : String :=
+  match toks with
+  | ["conc", n, k, seed, kinds] =>
+    match n.toNat?, k.toNat?, seed.toNat? with
+    | some n, some k, some seed =>
+      let ks := kinds.toList
+      let y0 := (List.range n).foldl (fun y p => spawn y p (.gen (if ks.getD p 'w' == 'r' then .root else .workload)))
+                  (Sys.init ⟨1, 2⟩ ⟨0, 1⟩)
+      let y := concLoop n k (64 * n + 64) seed y0
+      let rets := (List.range n).filterMap fun p => match y.procs p with
+        | .gDone r => some r
+        | _ => none
+      if rets.length ≠ n then "stuck" else
+      let errs := (rets.filter fun r => !r.ok).length
+      let keys := rets.foldr (fun r acc => match r.key with | some kk => insertNat kk acc | none => acc) []
+      let certs := rets.foldr (fun r acc => match r.cert with | some kk => insertNat kk acc | none => acc) []
+      let ks := if keys.isEmpty then "-" else ",".intercalate (keys.map toString)
+      let cs := if certs.isEmpty then "-" else ",".intercalate (certs.map toString)
+      s!"calls={y.st.caCalls} errs={errs} keys={ks} certs={cs}"
+    | _, _, _ => "bad-op"
+  | _ => "bad-op"
+
+/-! Stream `timer`: `rt <ttlSec> <rNum> <rDen> <stale>` - the scenario the harness plays on the real
+delayed queue (request; [bundle change; request;] all rotation callbacks in push order; request). -/
+def stepTimer (toks : List String) : String :=
+  match toks with
+  | ["rt", ttl, rn, rd, stale] =>
+    match ttl.toInt?, frac? rn rd with
+    | some t, some r =>
+      let ca : CAOut := .ok (t * 1000000000) 0 []
+      let y0 := seqOp (Sys.init r ⟨0, 1⟩) 0 (.gen .workload) { ca := ca, now := 0 }
+      let y := if stale == "1" then
+          let y1 := seqOp y0 1 (.update [1]) { now := 1000 }
+          let y2 := seqOp y1 2 (.gen .workload) { ca := ca, now := 2000 }
+          let y3 := seqOp y2 3 (.timer 0) { now := 3000 }
+          let y4 := seqOp y3 4 (.timer 1) { now := 4000 }
+          seqOp y4 5 (.gen .workload) { ca := ca, now := 5000 }
+        else
+          let y1 := seqOp y0 1 (.timer 0) { now := 1000 }
+          seqOp y1 2 (.gen .workload) { ca := ca, now := 2000 }
+      let wl := match y.st.workload with
+        | none => "-"
+        | some it => toString it.key
+      s!"ev={evTok y.st.events} calls={y.st.caCalls} wl={wl} early=0"
+    | _, _ => "bad-op"
+  | _ => "bad-op"
 
 def stepD (d : DState) (toks : List String) : DState × String :=
   match toks with
-  | "case" :: _ => (d, "ok")
+  | ["case", _, "cache", rn, rd, jn, jd] =>
+    match frac? rn rd, frac? jn jd with
+    | some r, some J => ({ sys := Sys.init r J }, "ok")
+    | _, _ => (d, "bad-op")
+  | "case" :: _ => ({}, "ok")
   | "rot" :: _ => (d, stepRotate toks)
   | "rotobs" :: _ => (d, stepRotate toks)
-  | _ => (d, "bad-op")
+  | "conc" :: _ => (d, stepConc toks)
+  | "rt" :: _ => (d, stepTimer toks)
+  | _ => stepCache d toks
 
 end IstioModel.C18
